@@ -89,6 +89,19 @@ fn literal_values() -> gen::VS {
                 }
                 Value::Object(m)
             }),
+            // every key an operator name, every value an array (looks like several rules merged into one object)
+            1 => (select(gen::OP_NAMES.to_vec()), select(gen::OP_NAMES.to_vec()), proptest::option::of(select(gen::OP_NAMES.to_vec())), vec(member.clone(), 0..=3), vec(member.clone(), 0..=3)).prop_map(|(k1, k2, k3, v1, v2)| {
+                let mut m = Map::new();
+                m.insert(k1.to_string(), Value::Array(v1.clone()));
+                m.insert(if k1 == k2 { "max".to_string() } else { k2.to_string() }, Value::Array(v2));
+                if let Some(k3) = k3 {
+                    m.insert(k3.to_string(), Value::Array(v1));
+                }
+                if m.len() < 2 {
+                    m.insert("min".into(), json!([0]));
+                }
+                Value::Object(m)
+            }),
             // two operator keys
             1 => (select(gen::OP_NAMES.to_vec()), select(gen::OP_NAMES.to_vec()), member.clone(), member).prop_map(|(k1, k2, v1, v2)| {
                 let mut m = Map::new();
@@ -151,6 +164,42 @@ fn check_literal(case: &Value, obs: &mut Obs) -> Result<(), String> {
         Some(got) if model::identical(&got, &json!([v])) => {}
         other => return Err(format!("a literal changed on its way through merge: {} gave {:?}", wrapped, other.map(|g| g.to_string()))),
     }
+    // a literal stays a literal in every operand position that returns its operand: last operand of or / and (also
+    // wrapped by an operator named like one of its own keys), branches, defaults, initial values, element expressions
+    let mut wrappers: Vec<(Value, Value)> = vec![
+        (json!({"or": [0, v]}), v.clone()),
+        (json!({"and": [1, v]}), v.clone()),
+        (json!({"or": [v]}), v.clone()),
+        (json!({"if": [true, v, 0]}), v.clone()),
+        (json!({"if": [false, 0, v]}), v.clone()),
+        (json!({"?:": [0, 1, v]}), v.clone()),
+        (json!({"var": ["no-such-key", v]}), v.clone()),
+        (json!({"reduce": [[], 0, v]}), v.clone()),
+        (json!({"reduce": [[1], v, 0]}), v.clone()),
+        (json!({"map": [[1, 2], v]}), json!([v, v])),
+        (json!({"log": [v]}), v.clone()),
+    ];
+    if let Value::Object(o) = v {
+        for k in o.keys() {
+            if matches!(k.as_str(), "or" | "and") {
+                wrappers.push((op_raw(k, json!([if k == "or" { json!(0) } else { json!(1) }, json!(null), v])), if k == "or" { v.clone() } else { Value::Null }));
+                wrappers.push((op_raw(k, json!([if k == "or" { json!(0) } else { json!(1) }, v])), v.clone()));
+            }
+        }
+    }
+    for (w, want) in &wrappers {
+        let t = crate::imp::apply_traced(w, &Value::Null);
+        obs.evals += 1;
+        sanity(&t, w, &Value::Null)?;
+        let is_log = model::eval::as_operation(w).map(|x| x.0 == "log").unwrap_or(false);
+        match &t.out {
+            crate::imp::Out::Ok(got) if model::identical(got, want) => {}
+            other => return Err(format!("a literal must stay a literal as an operand: {} should give {} but gave {}", w, want, other.short())),
+        }
+        if !is_log && !t.lines.is_empty() {
+            return Err(format!("something inside a literal operand was evaluated (log output {:?}): {}", t.lines, w));
+        }
+    }
     if interesting_literal(v) {
         obs.nt(&format!("{} with operator-like content", type_class(v)));
     } else {
@@ -161,6 +210,53 @@ fn check_literal(case: &Value, obs: &mut Obs) -> Result<(), String> {
 
 fn gen_literals() -> BoxedStrategy<Value> {
     (literal_values(), gen::data_docs(), gen::values()).prop_map(|(v, d1, d2)| json!({"v": v, "d1": d1, "d2": d2})).boxed()
+}
+
+/// literals nested deeper than any text could deliver (built in memory): C02 quantifies over all JSON values
+fn fixed_deep_literals() -> Vec<Value> {
+    let mut out = vec![];
+    for levels in [100usize, 127, 128, 129, 130, 160, 256, 300] {
+        for kind in ["array", "object", "mixed"] {
+            for leaf in [json!(1), json!({"var": "a"}), json!({"log": "DEEP"})] {
+                out.push(json!({"levels": levels, "kind": kind, "leaf": leaf}));
+            }
+        }
+    }
+    out
+}
+
+fn check_deep_literal(case: &Value, obs: &mut Obs) -> Result<(), String> {
+    let levels = case["levels"].as_u64().unwrap_or(1) as usize;
+    let kind = case["kind"].as_str().unwrap_or("array");
+    let mut v = case["leaf"].clone();
+    // one wrapping level first, so that an operation-shaped leaf sits *inside* a literal
+    for i in 0..levels {
+        v = match (kind, i % 2) {
+            ("array", _) | ("mixed", 0) => Value::Array(vec![v]),
+            _ => {
+                let mut m = Map::new();
+                m.insert("k".into(), v);
+                m.insert("z".into(), Value::Null);
+                Value::Object(m)
+            }
+        };
+    }
+    for (rule, want) in [(v.clone(), v.clone()), (json!({"if": [true, v, 0]}), v.clone()), (json!({"merge": [[v]]}), json!([v]))] {
+        let t = crate::imp::apply_traced(&rule, &json!({"a": 5}));
+        obs.evals += 1;
+        if let crate::imp::Out::Panic(m) = &t.out {
+            return Err(format!("PANIC ({}) on a literal nested {} levels ({})", m, levels, kind));
+        }
+        match &t.out {
+            crate::imp::Out::Ok(got) if got == &want => {}
+            other => return Err(format!("a literal nested {} levels ({}) did not evaluate to itself: got {}", levels, kind, other.short().chars().take(200).collect::<String>())),
+        }
+        if !t.lines.is_empty() {
+            return Err(format!("something inside a literal nested {} levels was evaluated: log output {:?}", levels, t.lines));
+        }
+    }
+    obs.nt(&format!("{} nested {} levels", kind, if levels > 128 { "more than 128" } else { "up to 128" }));
+    Ok(())
 }
 
 /// {k: args} is dispatched to k: the result is the model's for k, on operands where most other names would differ.
@@ -221,7 +317,7 @@ pub fn property() -> Property {
         subs: vec![
             Sub {
                 name: "literals",
-                about: "generated values that are not operations (primitives, arrays holding operations and poison, {}, multi-key objects with operator keys, single-key objects with near-miss keys: case / whitespace / NUL / zero-width / look-alike / prefix / extension variants of every operator name), nested to depth 4; apply(v,d) must be Ok(v) with identical text for four different data and must log nothing; also unchanged through merge.",
+                about: "generated values that are not operations (primitives, arrays holding operations and poison, {}, multi-key objects with operator keys, single-key objects with near-miss keys: case / whitespace / NUL / zero-width / look-alike / prefix / extension variants of every operator name), nested to depth 4; apply(v,d) must be Ok(v) with identical text for four different data and must log nothing; also unchanged through merge and as the returned operand of or / and (incl. an operator named like one of the literal's own keys) / if / ?: / var default / reduce / map / log.",
                 nontrivial: "the value contains an operator name as some key, an operation nested in a literal, or a near-miss key.",
                 strategy: Some(gen_literals),
                 fixed: None,
@@ -230,6 +326,18 @@ pub fn property() -> Property {
                 quick: 200_000,
                 thorough: 10_000_000,
                 small_stack: false,
+            },
+            Sub {
+                name: "deep_literals",
+                about: "literal arrays / objects / alternating nests of 100..300 levels (deeper than any text can deliver, built in memory) around a scalar, an operation-shaped leaf or a logging leaf: at top level, as a selected branch and through merge they come back identical and log nothing; 2 MiB stack.",
+                nontrivial: "every case.",
+                strategy: None,
+                fixed: Some(fixed_deep_literals),
+                fixed_exhaustive: false,
+                check: check_deep_literal,
+                quick: 0,
+                thorough: 0,
+                small_stack: true,
             },
             Sub {
                 name: "dispatch_canonical",
